@@ -88,7 +88,7 @@ pub fn gen(rng: &mut Rng, idx: usize, n: usize, thorough: bool) -> String {
         _ => { let c: Vec<usize> = (0..npool).filter(|i| sizes[*i] == best).collect(); *rng.pick(&c) }
     };
     // query variables: empty, all, or a random selection in random order (may be ignored by the function)
-    let maxq = if thorough { 5 } else { 4 };
+    let maxq = if thorough { 7 } else { 6 };
     // half of the cases are shaped for MEU: few decisions, early in the order, in the support
     let meu_shaped = rng.chance(1, 2);
     let k = if meu_shaped {
@@ -97,6 +97,8 @@ pub fn gen(rng: &mut Rng, idx: usize, n: usize, thorough: bool) -> String {
         match rng.below(10) {
             0 => 0,
             1 => total.min(maxq + 1),
+            // deep searches (>= 4 query variables): pruning decisions several levels apart interact
+            2..=5 => rng.range(total.min(4), total.min(maxq)),
             _ => rng.range(1, total.min(maxq)),
         }
     };
